@@ -129,16 +129,60 @@ def gid(g):
     return f"{c['ctor']}|{d.get('kind', c.get('type'))}|{json.dumps({k: v for k, v in c.items() if k not in ('data', 'anc')}, sort_keys=True)}|{g['phase']}"
 
 
+def structure_key(g):
+    """two dumps with the same nodes (duration rule, relation, references, membership) and the same channel occupation are the same
+    proof obligation (constructor inputs that differ only in states / names give isomorphic graphs)"""
+    import hashlib
+    nodes = [[nd.get("rule"), nd.get("refs"), nd.get("multi"), nd.get("rtype"), nd.get("members")] for nd in g["nodes"]]
+    return hashlib.sha1(json.dumps([nodes, g["order"], g["occupation"]], sort_keys=True, default=str).encode()).hexdigest()
+
+
 def main():
     gpath, opath = sys.argv[1:3]
     timeout_s = float(sys.argv[3]) if len(sys.argv) > 3 else 30
+    budget_s = float(sys.argv[4]) if len(sys.argv) > 4 else 240
     graphs = json.load(open(gpath))["graphs"]
     t0 = time.time()
+    # one obligation per distinct structure, smallest first; a global budget bounds the run: what is not reached is reported
+    # as not attempted (neither proved nor refuted)
+    reps, mult = {}, {}
+    for g in graphs:
+        k = structure_key(g)
+        mult[k] = mult.get(k, 0) + 1
+        reps.setdefault(k, g)
+    todo = sorted(reps.items(), key=lambda kv: len(kv[1]["nodes"]))
+    res = []
+    from concurrent.futures import wait, FIRST_COMPLETED
     with ProcessPoolExecutor(max_workers=16) as ex:
-        res = list(ex.map(prove_one, [(g, timeout_s) for g in graphs], chunksize=1))
-    json.dump({"results": res, "wall_s": round(time.time() - t0, 2), "z3": z3.get_version_string()}, open(opath, "w"), indent=0)
+        pending = {}
+        it = iter(todo)
+        exhausted = False
+        while True:
+            while not exhausted and len(pending) < 32 and time.time() - t0 < budget_s:
+                try:
+                    k, g = next(it)
+                except StopIteration:
+                    exhausted = True
+                    break
+                pending[ex.submit(prove_one, (g, timeout_s))] = (k, g)
+            if not pending:
+                break
+            done, _ = wait(list(pending), return_when=FIRST_COMPLETED)
+            for f in done:
+                k, g = pending.pop(f)
+                r = f.result()
+                r["same_structure_dumps"] = mult[k]
+                res.append(r)
+            if time.time() - t0 >= budget_s and not pending:
+                break
+        for k, g in it:
+            res.append({"id": gid(g), "verdict": "not_attempted", "why": f"global budget of {budget_s:.0f} s used up", "ops": len(g["nodes"]),
+                        "same_structure_dumps": mult[k]})
+    json.dump({"results": res, "wall_s": round(time.time() - t0, 2), "z3": z3.get_version_string(), "dumps": len(graphs),
+               "distinct_structures": len(reps)}, open(opath, "w"), indent=0)
     import collections
-    print("c10_durations:", dict(collections.Counter(r["verdict"] for r in res)), "structures", len(res), "wall", round(time.time() - t0, 1))
+    print("c10_durations:", dict(collections.Counter(r["verdict"] for r in res)), "dumps", len(graphs), "structures", len(reps),
+          "wall", round(time.time() - t0, 1))
 
 
 if __name__ == "__main__":
